@@ -36,6 +36,18 @@ func symCopyTree(root string, maxb int, sel int) {
 	id := func(name string) uint32 { return v.U32(name) }
 	m.MkDir(root+"/t", perm(), id("uid"), id("gid"), 5)
 	m.MkFile(root+"/t/f", v.Bytes("data", v.Choose("size", maxb+1)), perm(), id("uid"), id("gid"), chooseMtime("mtime"))
+	if v.Param("X", 0) != 0 {
+		if v.Bool("xattr-f") {
+			m.SetXattr(root+"/t/f", "user.f", v.Bytes("xf", 1))
+		}
+		if v.Bool("xattr-cap") {
+			// a valid vfs_cap_data (revision 2, cap_net_bind_service permitted): the kernel drops it on chown
+			m.SetXattr(root+"/t/f", "security.capability", []byte{0, 0, 0, 2, 0, 4, 0, 0, 0, 0, 0, 0, 0, 0, 0, 0, 0, 0, 0, 0})
+		}
+		if v.Bool("xattr-t") {
+			m.SetXattr(root+"/t", "user.t", v.Bytes("xt", 1))
+		}
+	}
 	if sel&1 != 0 {
 		m.MkDir(root+"/t/d", perm(), id("uid"), id("gid"), 5)
 		if v.Bool("has-d/g") {
@@ -58,4 +70,22 @@ func symCopyTree(root string, maxb int, sel int) {
 		}
 	}
 	m.SetMtime(root+"/t", chooseMtime("mtime-t"))
+}
+
+func xattrsEqual(a, b *m.Entry) bool {
+	if len(a.XKeys) != len(b.XKeys) {
+		return false
+	}
+	ok := true
+	for i, k := range a.XKeys {
+		found := false
+		for j, k2 := range b.XKeys {
+			if k == k2 {
+				found = true
+				ok = v.And(ok, string(a.XVals[i]) == string(b.XVals[j]))
+			}
+		}
+		ok = v.And(ok, found)
+	}
+	return ok
 }
